@@ -78,6 +78,19 @@ def default_assume(text):
     return None
 
 
+def assume(ev, test):
+    """branch decisions on symbolic data: moderate generic values (tensym.moderate_assume), else the textual fall-backs above"""
+    from .tensym import moderate_assume
+    r = moderate_assume(ev, test)
+    if r is None:
+        import ast as _ast
+        r = default_assume(_ast.unparse(test))
+    return r
+
+
+assume.wants_node = True
+
+
 def new_root():
     """the evaluator all runs of one comparison hang off.  Its world is in general position: different symbolic expressions are different numbers
     (a special relation between values - a zero component, equal lengths - is put into the world concretely, see World)"""
@@ -86,7 +99,7 @@ def new_root():
     return r
 
 
-def written(ctx, key, world, partition, root, assume=default_assume, me_extra=None, extra_args=None):
+def written(ctx, key, world, partition, root, assume=assume, me_extra=None, extra_args=None):
     """pieces written by successive write() calls on one file object; partition = [(first frame, end frame), ...]"""
     fn = F.method(ctx, key, "write")
     rel, cls = F.rel_cls(key)
@@ -167,7 +180,7 @@ def reader_object(ctx, key, fh, **fields):
     return me
 
 
-def read_call(ctx, key, me, method, root, assume=default_assume, models=None, **kw):
+def read_call(ctx, key, me, method, root, assume=assume, models=None, **kw):
     rel, cls = F.rel_cls(key)
     mod = ctx.py.mod(rel)
     fn = F.method(ctx, key, method)
@@ -179,7 +192,7 @@ def read_call(ctx, key, me, method, root, assume=default_assume, models=None, **
     return ts.run_fn(fn, self=me, **kw)
 
 
-def read_back(ctx, key, pieces, root, assume=default_assume, **kw):
+def read_back(ctx, key, pieces, root, assume=assume, **kw):
     """read() of the format's file class evaluated on a model file that holds `pieces` (opened as the class opens it: mdcrd skips its title line)"""
     fh = text_file(pieces)
     n_atoms = kw.pop("n_atoms", N_ATOMS)
@@ -190,8 +203,112 @@ def read_back(ctx, key, pieces, root, assume=default_assume, **kw):
     return read_call(ctx, key, me, "read", root, assume=assume, **kw), me
 
 
-def parse_lines(ctx, key, method, pieces, root, assume=default_assume, **fields):
+def parse_lines(ctx, key, method, pieces, root, assume=assume, **fields):
     """a parser that takes the list of the file's lines (f.readlines()): evaluated on the lines written"""
     fh = text_file(pieces)
     me = reader_object(ctx, key, fh, **fields)
     return read_call(ctx, key, me, method, root, assume=assume, lines=list(fh._lines)), me
+
+
+# ---------------------------------------------------------------------------------------------------
+# PDB
+# ---------------------------------------------------------------------------------------------------
+PDB = "mdtraj/formats/pdb/pdbfile.py"
+PDBS = "mdtraj/formats/pdb/pdbstructure.py"
+
+
+def pdb_topology(spec, serials=None):
+    """spec: [(chain id, [(residue name, resSeq, [(atom name, element symbol), ...]), ...]), ...]"""
+    chains, atoms, k = [], [], 0
+    for ci, (cid, ress) in enumerate(spec):
+        c = Obj(tag="chain", index=ci, chain_id=cid, _lenient=True)
+        c.residues = []
+        for (rn, rs, ans) in ress:
+            r = Obj(tag="residue", name=rn, resSeq=rs, chain=c, _lenient=True)
+            r.atoms = []
+            for (an, el) in ans:
+                a = Obj(tag="atom", name=an, serial=None if serials is None else serials[k], index=k, element=None if el is None else Obj(symbol=el), residue=r, segment_id="SEG", _lenient=True)
+                r.atoms.append(a)
+                atoms.append(a)
+                k += 1
+            c.residues.append(r)
+        chains.append(c)
+    return Obj(tag="topology", chains=chains, _chains=chains, atoms=atoms, n_atoms=len(atoms), _numAtoms=len(atoms), bonds=[], _bonds=[], _lenient=True)
+
+
+def pdb_written(ctx, top, frames, root, lengths=None, angles=None, bfactors=None, assume_=None):
+    """lines printed by PDBTrajectoryFile.write for the given frames (one MODEL each), header first"""
+    from .ttext import TText
+    mod = ctx.py.mod(PDB)
+    fn = ctx.py.func(PDB, "PDBTrajectoryFile.write")
+    out = []
+    fobj = Obj(tag="file")
+
+    def prn(ev, call):
+        dest = next((ev.ex(k_.value) for k_ in call.keywords if k_.arg == "file"), None)
+        if dest is fobj:
+            out.append([ev.ex(a_) for a_ in call.args])
+    me = Obj(tag="pdb", _mode="w", _file=fobj, _header_written=False, _footer_written=False, _chain_names=[chr(65 + i) for i in range(26)], _lenient=True)
+    me._methods = {q.split(".", 1)[1]: f for q, f in mod.functions.items() if q.startswith("PDBTrajectoryFile.") and q.count(".") == 1}
+    funcs = {q: f for q, f in mod.functions.items() if "." not in q}
+    for k, x in enumerate(frames):
+        ts = TenSym({"mdtraj": Obj(__version__="V", version=Obj(version="V")), "date": Obj(today=lambda: "D")}, funcs=funcs,
+                    models={"print": prn, "str": lambda ev, c: "S", "ilen": lambda ev, c: len(ev.iterate(ev.ex(c.args[0])))}, parent=root)
+        ts.assume = assume_ or assume
+        ts.module_env = {"mdtraj": Obj(__version__="V", version=Obj(version="V")), "date": Obj(today=lambda: "D")}
+        ts.run_fn(fn, self=me, positions=x, topology=top, modelIndex=k, unitcell_lengths=lengths, unitcell_angles=angles, bfactors=bfactors)
+    lines_ = [TText(T.flatten(o) + ["\n"]) for o in out]
+    return [(l_.literal() if l_.literal() is not None else l_) for l_ in lines_], me
+
+
+def pdb_loaded(ctx, lines_, root, assume_=None):
+    """PdbStructure._load evaluated on the lines: Atom.__init__ runs from its source for every ATOM line; the structure's bookkeeping is recorded.
+    -> dict(models=[[atom record Obj, ...], ...], lengths, angles, ters)"""
+    smod = ctx.py.mod(PDBS)
+    sfuncs = {q: f for q, f in smod.functions.items() if "." not in q}
+    load = ctx.py.func(PDBS, "PdbStructure._load")
+    ainit = ctx.py.func(PDBS, "Atom.__init__")
+    rec = {"models": [], "ters": 0}
+    me = Obj(tag="structure", load_all_models=True, _current_model=None, _unit_cell_lengths=None, _unit_cell_angles=None, _next_atom_number=1, _next_residue_number=1,
+             _atom_num_nondec_mode=None, _residue_num_nondec_mode=None, _lenient=True)
+
+    def reset_atoms():
+        me._next_atom_number = 1
+        me._atom_num_nondec_mode = None
+
+    def reset_res():
+        me._next_residue_number = 1
+        me._residue_num_nondec_mode = None
+
+    def add_model(m):
+        rec["models"].append([])
+        me._current_model = m
+
+    def add_atom(a):
+        if me._current_model is None:
+            add_model(Obj(tag="model", number=0, _finalize=lambda: None, connects=[], _current_chain=Obj(_add_ter_record=lambda: rec.__setitem__("ters", rec["ters"] + 1))))
+        rec["models"][-1].append(a)
+    me._reset_atom_numbers, me._reset_residue_numbers, me._add_model, me._add_atom, me._finalize = reset_atoms, reset_res, add_model, add_atom, (lambda: None)
+
+    def mkmodel(ev, call):
+        n_ = ev.ex(call.args[0]) if call.args else 1
+        return Obj(tag="model", number=n_, _finalize=lambda: None, connects=[], _current_chain=Obj(_add_ter_record=lambda: rec.__setitem__("ters", rec["ters"] + 1)))
+
+    def mkatom(ev, call):
+        a = Obj(tag="atom record", _lenient=True)
+
+        def mkloc(ev2, c2):
+            args = [ev2.ex(x_) for x_ in c2.args]
+            a.location = args
+            return Obj(tag="location", position=args[1] if len(args) > 1 else None)
+        sub = TenSym({"element": Obj(get_by_symbol=lambda s_: Obj(tag="element", symbol=s_), hydrogen=Obj(tag="element", symbol="H"))}, funcs=sfuncs,
+                     models={"Atom.Location": mkloc}, parent=ev)
+        sub.assume = assume_ or assume
+        vals = [ev.ex(x_) for x_ in call.args]
+        sub.run_fn(ainit, **{"self": a, "pdb_line": vals[0], "pdbstructure": vals[1] if len(vals) > 1 else None})
+        return a
+    ts = TenSym({}, funcs=sfuncs, models={"Model": mkmodel, "Atom": mkatom}, parent=root)
+    ts.assume = assume_ or assume
+    ts.run_fn(load, self=me, input_stream=list(lines_))
+    rec["lengths"], rec["angles"] = me._unit_cell_lengths, me._unit_cell_angles
+    return rec
